@@ -11,14 +11,18 @@
  *   poolcreate p0                   iv_work_pool_create (owner only); every creation is a new pool *instance*:
  *                                   named p0, then p0.1, p0.2 ... (the structure may be reused right after put)
  *   submit p0 x0                    iv_work_pool_submit_work from the owner
- *   submitc p0 x1                   iv_work_pool_submit_continuation (from a work function of that pool, or the owner)
+ *   submitc p0 x1                   iv_work_pool_submit_continuation: from the owner, or from a thread that is running a work
+ *                                   function of ANY pool (iv_work_submit_pool only distinguishes owner / not owner: a worker of
+ *                                   another pool is a "foreign" submitter for p0)
  *   submit null x2                  NULL pool: runs locally from a task
  *   put p0                          iv_work_pool_put (owner only); logs the user's handle afterwards
  *   spawn h0 <mode>                 iv_thread_create; mode = ret (iv_init, iv_main, iv_deinit, return) | pexit (same, then
  *                                   pthread_exit) | nodeinit (returns without iv_deinit) | pexit-nodeinit | noinit (never
  *                                   calls iv_init); body logs `BODY h0 begin mode=..`, runs `on h0.body`, logs `BODY h0 end`
  *   cfg failcreate=<n>              the n-th pthread_create of the run fails with EAGAIN
- * Submissions that would be invalid use (item in flight, pool already put, wrong thread) silently do nothing.
+ * Submissions that would be invalid use (item in flight, pool already put, wrong thread) silently do nothing; so does a put
+ * while a submission to that pool is in progress in another thread (P[i].submitting): the two halves of the environment
+ * contract "no submission after put, no put during a submission".
  *
  * White box.  struct work_pool_priv / work_pool_thread are private to iv_work.c.  This file carries a copy of the
  * two declarations (between the WB-BEGIN/WB-END markers); vlib/c12.py compares the copy token by token with the
@@ -489,7 +493,8 @@ static int w_action(char *op, int guard, char *a1, char *a2, char *rest)
 			if (!P[i].exists || P[i].cur < 0) return 1;	/* never created, or already put */
 			n = P[i].cur;
 			if (!cont && P[i].owner != me) return 1;
-			if (cont && P[i].owner != me && inwork[me] != n) return 1;
+			/* a continuation may come from any thread that runs a work function of any pool (not from a NULL-pool item: -2) */
+			if (cont && P[i].owner != me && inwork[me] < 0) return 1;
 			W[x].state = 1; W[x].inst = n; W[x].submitter = me;
 			mt_log("API %s %s x%d\n", op, PI[n].name, x);
 			P[i].submitting++;
@@ -504,7 +509,7 @@ static int w_action(char *op, int guard, char *a1, char *a2, char *rest)
 		int i = mt_objnum(a1, 'p'), n;
 		if (!P[i].exists || P[i].owner != me || P[i].cur < 0) return 1;
 		/* the user promises that no submission is made after (or concurrently with) put: a continuation that a
-		   worker has begun but not finished makes this put invalid use, so it is not performed */
+		   worker (of this or of another pool) has begun but not finished makes this put invalid use, so it is not performed */
 		if (P[i].submitting > 0) return 1;
 		n = P[i].cur;
 		mt_log("API put %s\n", PI[n].name);
